@@ -91,7 +91,7 @@ static int slotOf(long long x) { return (int)(((x % 3) + 3) % 3); }
 
 struct Flags {
 	int ops = 0, chain_mut = 0, head_rm = 0, nonhead_rm = 0, rehash = 0, eq_equal = 0, eq_equal_difforder = 0, eq_unequal = 0,
-	    eq_unequal_samelen = 0, eq_values_only = 0, merges = 0, merge_overlap = 0, clones = 0, clone_then_mut = 0, maxlen = 0,
+	    eq_unequal_samelen = 0, eq_values_only = 0, merges = 0, merge_overlap = 0, clones = 0, base_adds = 0, clone_then_mut = 0, maxlen = 0,
 	    algebra = 0, tablesizes = 0, removed_present = 0, overwrites = 0, front_insert = 0, mid_insert = 0, convs = 0,
 	    conv_reordered = 0, conv_merged = 0, eq_default_moved = 0, setref = 0, setref_new = 0, setref_before = 0, setref_after = 0,
 	    setref_full = 0, degenerate = 0;
@@ -1099,7 +1099,12 @@ struct SetRun {
 			probe(mk);
 			pre_mut(s, mk, false);
 			int b = c.a.length();
-			c << Conv<T>::to(mk);
+			if (F.ops % 3 == 0) { // a member added through the publicly inherited map interface (stored value 0), after seeded C02-P
+				static_cast<HashMap<T, int>&>(c).set(Conv<T>::to(mk), 0);
+				F.base_adds++;
+			}
+			else
+				c << Conv<T>::to(mk);
 			post_insert(s, b);
 			m.insert(mk);
 		}
@@ -1467,6 +1472,7 @@ static void record(const std::string& part, const vf::Case& c, const Flags& F)
 	cl("remove_present", F.removed_present > 0);
 	cl("overwrite", F.overwrites > 0);
 	cl("clone_then_mutate", F.clone_then_mut > 0);
+	cl("set.member_added_through_base_map_interface", F.base_adds > 0);
 	cl("eq_equal", F.eq_equal > 0);
 	cl("eq_unequal_same_length", F.eq_unequal_samelen > 0);
 	if (part[0] != 's')
